@@ -106,7 +106,9 @@ pub mod fallback {
     /// Returns the largest integer less than or equal to `x`.
     #[inline]
     pub fn floor(x: f32) -> f32 {
-        (x as i64 - x.is_sign_negative() as i64) as f32
+        let trunc = x as i64 as f32;
+        // Truncation rounds negative non-integers up, towards zero
+        if trunc > x { trunc - 1.0 } else { trunc }
     }
     // Returns the least non-negative remainder of `x` (mod `m`).
     #[inline]
